@@ -49,20 +49,27 @@ import Asn1Verif.Codegen.TagsLemmas
   3. COMPOSITION — `front_end_total`: for every text outside `PanicCond`, tokenize, `bridge`,
      parse: a model or an error class, never `fuel`; `front_end_panics_iff`.
 
-  4. RESOLVER — PARTIAL.  `resolver_chase_is_only_recursion`: `ResolveScope::try_resolve` never
-     exhausts a budget unless an import chase does (the chase of `value_reference` /
-     `definition` has no visited set).  `resolver_total_partial` (= C12 `chase_fuel_enough`):
-     the chase ends when the imports followed are acyclic.  `resolve_single_module_total_partial`:
-     `Model::try_resolve` (scope = the module itself) terminates unless the module imports from
-     itself.  The full statement `ResolverTotal` is FALSE for the current code:
-     `resolver_total_false` (C12 `cyclic_import_diverges`: `IMPORTS ghost FROM Selfish;` inside
-     `Selfish`).  `front_end_resolve_total_partial` composes 1–4.
+  4. RESOLVER — full.  `ResolveScope::try_resolve` is a structural walk over the module plus the
+     import chase of `value_reference` / `definition`, which follows at most `scope.len()` imports
+     (repaired code; before, it had no bound and `IMPORTS ghost FROM Selfish;` inside `Selfish`
+     overflowed the stack — former finding front.cyclic_reference (b)).  `resolver_total`: every
+     chase comes back, for every module, scope and name (the full statement `ResolverTotal`, no
+     acyclicity hypothesis; = C12 `chase_total`).  `resolve_total`, `resolve_single_module_total`,
+     `resolve_all_total`: `try_resolve` / `Model::try_resolve` / `try_resolve_all` answer with a
+     model or one of the three classes of `resolve::Error`, never with the pseudo error.
+     `resolve_cyclic_import_is_error`: the former witness is now `FailedToResolveReference`.
+     `front_end_resolve_total` composes 1–4: outside the documented panic the composed function
+     answers with a resolved model or an error class of the parser or the resolver.
 
-  5. CONVERSION — PARTIAL.  `convert_asn_to_rust` / `convert_rust_to_protobuf` are structural
-     recursions over the resolved model (no budget needed, no panic site, see the table) except
-     for `TagResolver::resolve_tag` / `resolve_type_tag`, which follow type references without a
-     visited set.  `tag_resolver_total_partial` (= C16 `resolver_total_on_acyclic`), and the full
-     statement `TagResolverTotal` is FALSE: `tag_resolver_total_false` (`A ::= A`).
+  5. CONVERSION — full for the only non-structural recursion.  `convert_asn_to_rust` /
+     `convert_rust_to_protobuf` are structural recursions over the resolved model (no budget
+     needed, no panic site, see the table) except for `TagResolver::resolve_tag` /
+     `resolve_type_tag`, which follow type references and keep a stack of the names being
+     resolved (repaired code; before, `A ::= A` overflowed the stack in `to_rust` — former finding
+     front.cyclic_reference (a) = F-C16-6).  `tag_resolver_total` (= C16 `resolver_total`): for
+     every module, cyclic or not, the resolver answers within an explicit recursion bound; the
+     full statement `TagResolverTotal` holds (`tag_resolver_total_full`);
+     `tag_resolver_cycle_has_no_tag`: `A ::= A` has no tag.
 
   ──────────────────────────────────────────────────────────────────────────────────────────────
   PANIC SITES of the real front end (asn1rs-model/src, every `unwrap`/`expect`/index/slice/
@@ -77,10 +84,8 @@ import Asn1Verif.Codegen.TagsLemmas
   parse/tokenizer.rs:27            nest_lvl -= 1 (i32)                    guard: inside `if nest_lvl > 0`
   parse/tokenizer.rs:33,60         nest_lvl += 1 (i32)                    needs 2^31 unclosed `/*` (≥ 4 GiB of text); modelled as panic
                                                                           in `PanicCond`, not exercisable
-  parse/tokenizer.rs:39            asn.lines().count() - 1                guard: evaluated inside the loop over `asn.lines()` (count ≥ 1).
-                                                                          (Not a panic but slow: the whole text is re-scanned at the end of every
-                                                                          line inside a block comment — quadratic; a comment of 40 000 lines,
-                                                                          840 KB, takes 45 s.  Observation, not checked by the stream.)
+  parse/tokenizer.rs               line_count - 1                         guard: evaluated inside the loop over `asn.lines()` (count ≥ 1); the count
+                                                                          is taken once before the loop (was: once per comment line, quadratic)
   parse/tokenizer.rs:70,77         line_0 + 1, column_0 + 1 (usize)       bounded by the text length
   parse/tokenizer.rs:89            c as u8                                cast, cannot panic
   asn/peekable.rs:88,103,116,130   debug_assert!(token …)                 guard: the token just peeked is the token taken (`peek` then `next`)
@@ -113,14 +118,14 @@ import Asn1Verif.Codegen.TagsLemmas
                                    str::parse::<i64|u64|usize>()          returns `Err` on overflow (`99999999999999999999999`,
                                                                           `-9223372036854775809`): the text becomes a *reference* name
                                                                           (ranges, sizes) or an error class (tags, enum numbers, constants)
-  asn/resolve_scope.rs:125         value as usize                         cast (a negative value wraps: C12 `size_negative_wraps`), no panic
-  asn/resolve_scope.rs:83-100,102-117  value_reference / definition         UNBOUNDED RECURSION on an import cycle → stack overflow, process abort:
-                                                                          FIRES, finding front.cyclic_reference,
-                                                                          `IMPORTS x FROM M;` inside `M`, `A ::= INTEGER (0..x)`
-  asn/tag_resolver.rs:26-46,57-101 resolve_tag / resolve_type_tag         UNBOUNDED RECURSION on a reference cycle through untagged references /
-                                                                          untagged CHOICE alternatives → stack overflow in `to_rust`: FIRES,
-                                                                          finding front.cyclic_reference (= F-C16-6), `A ::= A`
-  asn/tag_resolver.rs:82           extension_after + 1                    `extension_after < variants.len()`
+  asn/resolve_scope.rs (Resolver<usize>)  usize::try_from(value)          returns `Err` for a negative value (C12 `size_negative_rejected`), no panic
+  asn/resolve_scope.rs  value_reference_within / definition_within        recursion bounded by `hops` (≤ `scope.len()`), `hops.checked_sub(1)?` is
+                                                                          an `Option`, no panic (`resolver_total`); was: unbounded recursion on an
+                                                                          import cycle, repaired
+  asn/tag_resolver.rs   resolve_tag_visiting / resolve_type_tag_visiting  recursion bounded by the stack `visiting` (one entry per definition) and
+                                                                          the nesting of the type (`tag_resolver_total`); was: unbounded recursion on
+                                                                          a reference cycle (`A ::= A`), repaired
+  asn/tag_resolver.rs              extension_after + 1                    `extension_after < variants.len()`
   asn/model.rs:292-325 (+ choice.rs:89, components.rs:43, asn/model.rs:359,371)
                                    read_role_given_text ↔ Choice/ComponentTypeList/read_field
                                                                           RECURSION DEPTH = nesting depth of the text, no limit: a text with
@@ -280,100 +285,93 @@ theorem front_end_parse_error_ne_fuel (s : List Char) (e : Syn.FErr)
     intro he
     exact parser_terminates _ (he ▸ parseResolve_parse_error _ _ h')
 
-/-! ### 4. resolver: total on acyclic imports only -/
+/-! ### 4. resolver: total -/
 
-/-- **`ResolveScope::try_resolve` recurses without bound only through the import chase**: if no
-    chase of the scope runs out of budget, resolving the whole module does not either -/
-theorem resolver_chase_is_only_recursion (sc : Syn.Scope) (h : Syn.ChaseTotal sc) :
-    sc.tryResolve ≠ .error .fuel :=
-  (Syn.tryResolve_post sc h).ne_fuel
-
-/-- **The import chase ends when the imports it follows are acyclic** (C12 `chase_fuel_enough`):
-    `rank` decreases along every import followed for the name `n`. -/
-theorem resolver_total_partial (A : Syn.UModule) (S : List Syn.UModule) (n : String)
-    (rank : Syn.UModule → Nat)
-    (hdec : ∀ m m', (m.valueReferences.find? fun vr => vr.name == n) = none →
-      Syn.modelWithImportedItem m S n = some m' → rank m' < rank m)
-    (hrank : rank A ≤ S.length) : ∃ r, (Syn.Scope.mk A S).valueReference n = .ok r :=
-  C12.chase_fuel_enough A S n rank hdec hrank
-
-/-- the full statement: every chase ends -/
+/-- **The import chase always comes back** — the full statement, for every module, scope and
+    name; no hypothesis on the imports (cycles included) -/
 def ResolverTotal : Prop :=
   ∀ (A : Syn.UModule) (S : List Syn.UModule) (n : String),
     ∃ r, (Syn.Scope.mk A S).valueReference n = .ok r
 
-/-- … is false for the current code: a module that imports an undefined name from itself
-    (`IMPORTS ghost FROM Selfish;` inside `Selfish`) makes the chase — in the real code:
-    `ResolveScope::value_reference` — recurse for ever (stack overflow, process abort) -/
-theorem resolver_total_false : ¬ ResolverTotal := by
-  intro h
-  obtain ⟨r, hr⟩ := h C12.cexSelf [C12.cexSelf] "ghost"
-  rw [C12.cyclic_import_diverges.1] at hr
-  cases hr
+theorem resolver_total : ResolverTotal :=
+  fun A S n => C12.chase_total A S n
 
-/-- `Model::try_resolve` (the scope is the module itself) terminates for every module that does
-    not import from itself -/
-theorem resolve_single_module_total_partial (m : Syn.UModule) (h : Syn.NoSelfImport m) :
-    Syn.tryResolve m ≠ .error .fuel :=
-  Syn.tryResolve_ne_fuel m h
+/-- … likewise the chase for a type name -/
+theorem resolver_total_definition (A : Syn.UModule) (S : List Syn.UModule) (n : String) :
+    ∃ r, (Syn.Scope.mk A S).definition n = .ok r :=
+  C12.chase_total_definition A S n
 
-/-- the excluded region is not empty: the self-importing module exhausts the budget -/
-theorem resolve_single_module_diverges :
-    ¬ Syn.NoSelfImport C12.cexSelf ∧ Syn.tryResolve C12.cexSelf = .error .fuel := by
-  constructor
-  · decide
-  · rfl
+/-- **`ResolveScope::try_resolve` is total**: for every module in every scope a resolved model or
+    an error class of `resolve::Error`, never the pseudo error of the mirror -/
+theorem resolve_total (sc : Syn.Scope) : sc.tryResolve ≠ .error .fuel :=
+  Syn.Scope.tryResolve_ne_fuel sc
 
-/-- **Text to resolved model (partial)**: outside the documented panic the composed function
-    answers; its answer is the exhausted budget only at the resolve stage and only for a parsed
-    module that imports from itself. -/
-theorem front_end_resolve_total_partial (s : List Char) (h : ¬ PanicCond s) :
-    ∃ r, frontEnd s = ok r ∧
-      (∀ st, r = .error (st, .fuel) →
-        st = .resolve ∧ ∃ ts m, tokenize s = ok ts ∧ Syn.parseModule (ts.map bridge) = .ok m ∧
-          ¬ Syn.NoSelfImport m) := by
+/-- `Model::try_resolve` (the scope is the module itself) — every module, self-imports included -/
+theorem resolve_single_module_total (m : Syn.UModule) : Syn.tryResolve m ≠ .error .fuel :=
+  Syn.tryResolve_ne_fuel m
+
+/-- `MultiModuleResolver::try_resolve_all` — every list of modules, import cycles included -/
+theorem resolve_all_total (ms : List Syn.UModule) : Syn.tryResolveAll ms ≠ .error .fuel :=
+  Syn.tryResolveAll_ne_fuel ms
+
+/-- the witness of the former finding (`IMPORTS ghost FROM Selfish;` inside `Selfish`: the real
+    resolver overflowed its stack) is refused with `FailedToResolveReference` -/
+theorem resolve_cyclic_import_is_error :
+    C12.errOf (Syn.tryResolve C12.cexSelf) = some .failedToResolveReference :=
+  C12.cyclic_import_self.2.2
+
+/-- **Text to resolved model**: outside the documented panic the composed function answers with
+    a resolved model or with an error class of the parser or of the resolver — never with the
+    exhausted budget of the mirror, at no stage. -/
+theorem front_end_resolve_total (s : List Char) (h : ¬ PanicCond s) :
+    ∃ r, frontEnd s = ok r ∧ ∀ st, r ≠ .error (st, .fuel) := by
   obtain ⟨ts, hts⟩ := tokenizer_total s h
   refine ⟨parseResolve (ts.map bridge), by unfold frontEnd; rw [hts]; rfl, ?_⟩
   intro st hst
   cases st with
   | parse => exact absurd (parseResolve_parse_error _ _ hst) (parser_terminates _)
   | resolve =>
-    obtain ⟨m, hp, hr⟩ := parseResolve_resolve_error _ _ hst
-    exact ⟨rfl, ts, m, hts, hp, fun hn => resolve_single_module_total_partial m hn hr⟩
+    obtain ⟨m, _, hr⟩ := parseResolve_resolve_error _ _ hst
+    exact resolve_single_module_total m hr
 
-/-! ### 5. conversion: `TagResolver` is total on acyclic reference graphs only -/
+/-! ### 5. conversion: `TagResolver` is total -/
 
 open Asn1Verif.Codegen.Tags in
-/-- **`TagResolver` answers on acyclic reference graphs** (C16 `resolver_total_on_acyclic`) -/
-theorem tag_resolver_total_partial (env : Env) (r : String → Nat) (hac : Acyclic env r)
-    (fuel : Nat) (t : Ty) (hf : fuelBound r env t ≤ fuel) :
-    ∃ x, resolveTypeTag env fuel t = some x :=
-  resolveTypeTag_total env r hac fuel t hf
+/-- **`TagResolver` answers for every module** (C16 `resolver_total`): reference cycles included,
+    within the explicit recursion bound
+    `depth t + (definitions not on the stack) · (deepest definition + 1)` -/
+theorem tag_resolver_total (env : Env) (fuel : Nat) (vis : List String) (t : Ty)
+    (hf : fuelBound env vis t ≤ fuel) : ∃ x, resolveTypeTag env fuel vis t = some x :=
+  resolveTypeTag_total env fuel vis t hf
 
 open Asn1Verif.Codegen.Tags in
 /-- the full statement: the tag of every type is found with some finite amount of recursion -/
 def TagResolverTotal : Prop :=
-  ∀ (env : Env) (t : Ty), ∃ fuel x, resolveTypeTag env fuel t = some x
+  ∀ (env : Env) (t : Ty), ∃ fuel x, resolveTypeTag env fuel [] t = some x
+
+open Asn1Verif.Codegen.Tags in
+theorem tag_resolver_total_full : TagResolverTotal :=
+  fun env t => ⟨defaultFuel env t, defaultFuel_sufficient env t⟩
 
 open Asn1Verif.Codegen.Tags in
 /-- `A ::= A` -/
 def envSelf : Env := [{ name := "A", tag := none, ty := .ref "A" }]
 
 open Asn1Verif.Codegen.Tags in
-/-- … is false for the current code: `A ::= A` is followed for ever (`to_rust` overflows the stack) -/
-theorem tag_resolver_total_false : ¬ TagResolverTotal := by
-  intro h
-  obtain ⟨fuel, x, hx⟩ := h envSelf (.ref "A")
-  have hdiv : ∀ fuel, resolveTypeTag envSelf fuel (.ref "A") = none := by
-    intro fuel
-    induction fuel with
-    | zero => rfl
-    | succ f ih =>
-      have hl : envSelf.lookup "A" = some { name := "A", tag := none, ty := .ref "A" } := rfl
-      rw [resolveTypeTag, hl]
-      exact ih
-  rw [hdiv fuel] at hx
-  cases hx
+/-- the witness of the former finding (`A ::= A`: `to_rust` overflowed the stack) has no tag —
+    for every amount of fuel from 2 on -/
+theorem tag_resolver_cycle_has_no_tag (fuel : Nat) :
+    resolveTypeTag envSelf (fuel + 2) [] (.ref "A") = some none := by
+  have hl : envSelf.lookup "A" = some { name := "A", tag := none, ty := .ref "A" } := rfl
+  rw [resolveTypeTag]
+  simp only [List.contains_nil, Bool.false_eq_true, if_false, hl]
+  exact resolveTypeTag_visiting envSelf fuel ["A"] "A" (by simp)
+
+open Asn1Verif.Codegen.Tags in
+/-- the conversion pipeline of C16 (stage 1 + stage 2 on the item under test) always answers -/
+theorem conversion_terminates (env : Env) (o : EncodingOrdering) (c : Components) :
+    ∃ r, emit env o c = some r :=
+  emit_isSome env o c
 
 /-! ### non-vacuity -/
 
@@ -430,20 +428,34 @@ example : ¬ PanicCond "M BEGIN A ::= }".toList ∧
     verdict "M BEGIN A ::= }" = ok (some (.parse, .unexpectedToken)) := by decide +kernel
 example : verdict "M DEFINITIONS ::= BEGIN A ::= INTEGER (0..7) END" = ok none := by
   decide +kernel
-/-- the self-import, from its text: the resolver's budget is exhausted -/
-example : verdict "S DEFINITIONS ::= BEGIN IMPORTS g FROM S; A ::= INTEGER (0..g) END" =
-    ok (some (.resolve, .fuel)) := by decide +kernel
+/-- the self-import, from its text: an unresolved reference (was: stack overflow) -/
+example : ¬ PanicCond "S DEFINITIONS ::= BEGIN IMPORTS g FROM S; A ::= INTEGER (0..g) END".toList ∧
+    verdict "S DEFINITIONS ::= BEGIN IMPORTS g FROM S; A ::= INTEGER (0..g) END" =
+    ok (some (.resolve, .failedToResolveReference)) := by decide +kernel
+/-- … and a self-import of a name the module does define resolves -/
+example : verdict "S DEFINITIONS ::= BEGIN IMPORTS g FROM S; g INTEGER ::= 7 A ::= INTEGER (0..g) END" =
+    ok none := by decide +kernel
 
-/-- hypotheses of the partial theorems are satisfiable: a module without self-import … -/
-example : Syn.NoSelfImport C12.sample := by decide
 open Asn1Verif.Codegen.Tags in
 /-- `A ::= B`, `B ::= CHOICE { x INTEGER, y C }`, `C ::= BOOLEAN` -/
 def envOk : Env :=
   [{ name := "A", tag := none, ty := .ref "B" },
    { name := "B", tag := none, ty := .choice [(none, .builtin .integer), (none, .ref "C")] none },
    { name := "C", tag := none, ty := .builtin .boolean }]
-def rankOk (n : String) : Nat := if n = "A" then 2 else if n = "B" then 1 else 0
-/-- … and an acyclic tag environment -/
-example : Codegen.Tags.Acyclic envOk rankOk := by unfold Codegen.Tags.Acyclic; decide
+open Asn1Verif.Codegen.Tags in
+/-- `tag_resolver_total`: the bound for `A` in `envOk` is 10; the resolver finds BOOLEAN's tag -/
+example : fuelBound envOk [] (.ref "A") ≤ 10 ∧
+    resolveTypeTag envOk 10 [] (.ref "A") = some (some (Tag.universal 1)) := by decide
+open Asn1Verif.Codegen.Tags in
+/-- the cyclic witnesses of the former finding, evaluated: `A ::= A`; `A ::= B`, `B ::= A`;
+    `A ::= CHOICE { x INTEGER, y CHOICE { z A } }` — no tag, no divergence -/
+example :
+    resolveTypeTag envSelf (defaultFuel envSelf (.ref "A")) [] (.ref "A") = some none ∧
+    resolveTypeTag [{ name := "A", tag := none, ty := .ref "B" },
+                    { name := "B", tag := none, ty := .ref "A" }] 8 [] (.ref "A") = some none ∧
+    resolveTypeTag [{ name := "A", tag := none,
+                      ty := .choice [(none, .builtin .integer),
+                                     (none, .choice [(none, .ref "A")] none)] none }]
+      8 [] (.ref "A") = some none := by decide
 
 end Asn1Verif.Props.C14
